@@ -217,6 +217,160 @@ def unmarshal (buf : List Nat) : Option Wire :=
                     some { totalKeys := totalKeys, height := height, labels := labels, hasChild := hasChild,
                            louds := louds, pfx := pfx, sfx := sfx, values := values }
 
+
+/-! ### `UnmarshalBinary` with its failure modes, branch for branch
+
+The readers above collapse every failure into `none`. Here the outcome of every statement of
+`trie.UnmarshalBinary` / `labelVector.Unmarshal` / `bitVector.unmarshal` / `rankVector.Unmarshal` /
+`selectVector.Unmarshal` / `compressPathVector.Unmarshal` / `valueVector.Unmarshal` is kept apart:
+`ok`, an `error` return (by which check), or a run-time panic (a slice expression beyond the buffer,
+`endian.Uint32` on fewer than 4 bytes, the division by a zero `blockSize`). Lengths that the Go code
+computes in `uint32` wrap modulo 2^32 exactly where the code's do. The buffer handed in is sliced to
+its end everywhere, so capacity = length. -/
+
+inductive Res (α : Type) where
+  | ok (a : α)
+  | err (kind : String)
+  | panic
+  deriving Repr, DecidableEq
+
+/-- a reader: consumes a prefix of the buffer -/
+abbrev Rd (α : Type) := List Nat → Res (α × List Nat)
+
+def Rd.bind {α β : Type} (p : Rd α) (q : α → Rd β) : Rd β := fun b =>
+  match p b with
+  | .ok (x, r) => q x r
+  | .err k => .err k
+  | .panic => .panic
+
+def Rd.pure {α : Type} (x : α) : Rd α := fun b => .ok (x, b)
+
+/-- `if len(buf) < n { return error }` -/
+def need (n : Nat) (kind : String) : Rd Unit := fun b => if b.length < n then .err kind else .ok ((), b)
+
+/-- `endian.Uint32(buf[:4]); buf = buf[4:]` (panics on fewer than 4 bytes) -/
+def u32R : Rd Nat := fun b =>
+  match readU32 b with
+  | none => .panic
+  | some (x, r) => .ok (x, r)
+
+/-- `x := buf[:n]; buf = buf[n:]` without a length check (panics when `n > len(buf)`) -/
+def bytesP (n : Nat) : Rd (List Nat) := fun b =>
+  match readBytes n b with
+  | none => .panic
+  | some (x, r) => .ok (x, r)
+
+/-- the same behind `if len(buf) < n { return error }` -/
+def bytesE (n : Nat) (kind : String) : Rd (List Nat) := fun b =>
+  match readBytes n b with
+  | none => .err kind
+  | some (x, r) => .ok (x, r)
+
+/-- a condition whose failure is a run-time panic -/
+def guardP (c : Bool) : Rd Unit := fun b => if c then .ok ((), b) else .panic
+
+def two32 : Nat := 4294967296
+
+/-- `encoding.BytesToU32Slice`: `len/4` little-endian words (trailing bytes ignored) -/
+def le32s : List Nat → List Nat
+  | a :: b :: c :: d :: r => (a + 256 * b + 65536 * c + 16777216 * d) :: le32s r
+  | _ => []
+
+/-- `labelVector.Unmarshal`: `buf[4 : 4+size]` with `4+size` in uint32 -/
+def labelsR : Rd (List Nat) :=
+  (need 4 "labels-short").bind fun _ => u32R.bind fun size =>
+    let hi := (4 + size) % two32
+    (guardP (decide (4 ≤ hi))).bind fun _ => bytesP (hi - 4)
+
+/-- `bitVector.unmarshal` after `numBits` -/
+def bitsR (numBits : Nat) : Rd (List Bool) :=
+  (bytesE (numWords numBits * 8) "bits-short").bind fun bytes =>
+    Rd.pure ((bytes.flatMap bitsOfByte).take numBits)
+
+/-- `rankVector.Unmarshal` -/
+def rankR : Rd RankVec :=
+  (need 8 "rank-header").bind fun _ => u32R.bind fun numBits => (bitsR numBits).bind fun bits =>
+    u32R.bind fun blockSize => (guardP (blockSize != 0)).bind fun _ =>
+      (bytesE (((numBits / blockSize + 1) * 4) % two32) "rank-lut-short").bind fun lut =>
+        Rd.pure { bits := bits, blockSize := blockSize, lut := le32s lut }
+
+/-- `selectVector.Unmarshal` -/
+def selR : Rd SelVec :=
+  (need 8 "select-header").bind fun _ => u32R.bind fun numBits => (bitsR numBits).bind fun bits =>
+    u32R.bind fun numOnes =>
+      (bytesE (((numOnes / selectSampleInterval + 1) * 4) % two32) "select-lut-short").bind fun lut =>
+        Rd.pure { bits := bits, numOnes := numOnes, lut := le32s lut }
+
+/-- `compressPathVector.Unmarshal` -/
+def pathR : Rd PathVec :=
+  rankR.bind fun has => (need 8 "path-header").bind fun _ => u32R.bind fun offsetsLen => u32R.bind fun dataLen =>
+    (need ((offsetsLen + dataLen) % two32) "path-short").bind fun _ =>
+      (bytesP offsetsLen).bind fun offs => (bytesP dataLen).bind fun data =>
+        Rd.pure { has := has, offsets := le32s offs, data := data }
+
+/-- `valueVector.Unmarshal(totalKeys, buf)` -/
+def valuesR (totalKeys : Nat) : Rd (List Nat) :=
+  (bytesP (totalKeys * 4)).bind fun bs => Rd.pure (le32s bs)
+
+/-- `trie.UnmarshalBinary`; the remainder (ignored by the Go code) is returned as well -/
+def parseR : Rd Wire :=
+  (need 9 "eof").bind fun _ => u32R.bind fun totalKeys => u32R.bind fun height =>
+    labelsR.bind fun labels => rankR.bind fun hasChild => selR.bind fun louds =>
+      pathR.bind fun pfx => pathR.bind fun sfx => (valuesR totalKeys).bind fun values =>
+        Rd.pure { totalKeys := totalKeys, height := height, labels := labels, hasChild := hasChild,
+                  louds := louds, pfx := pfx, sfx := sfx, values := values }
+
+def unmarshalR (buf : List Nat) : Res Wire :=
+  match parseR buf with
+  | .ok (w, _) => .ok w
+  | .err k => .err k
+  | .panic => .panic
+
+/-! ### unmarshalling into a trie object that was used before (`trie.GetTrie` / `PutTrie` pool)
+
+`UnmarshalBinary` assigns the fields section by section; when a section fails the earlier
+assignments stay and the later fields keep what the previous use left. -/
+
+def andThen {α : Type} (st : Wire) (r : Res (α × List Nat)) (k : α → List Nat → Wire × Res Unit) : Wire × Res Unit :=
+  match r with
+  | .ok (x, rest) => k x rest
+  | .err e => (st, .err e)
+  | .panic => (st, .panic)
+
+/-- the object after `UnmarshalBinary(buf)` on an object holding `prev`, and the call's outcome -/
+def unmarshalInto (prev : Wire) (buf : List Nat) : Wire × Res Unit :=
+  andThen prev (((need 9 "eof").bind fun _ => u32R.bind fun tk => u32R.bind fun h => Rd.pure (tk, h)) buf) fun hd r1 =>
+    let s1 := { prev with totalKeys := hd.1, height := hd.2 }
+    andThen s1 (labelsR r1) fun labels r2 =>
+      let s2 := { s1 with labels := labels }
+      andThen s2 (rankR r2) fun hc r3 =>
+        let s3 := { s2 with hasChild := hc }
+        andThen s3 (selR r3) fun lo r4 =>
+          let s4 := { s3 with louds := lo }
+          andThen s4 (pathR r4) fun pf r5 =>
+            let s5 := { s4 with pfx := pf }
+            andThen s5 (pathR r5) fun sf r6 =>
+              let s6 := { s5 with sfx := sf }
+              andThen s6 (valuesR hd.1 r6) fun vs _ => ({ s6 with values := vs }, .ok ())
+
+/-- a digest of everything a `trie` object holds (driver / harness comparison) -/
+def boolNat (b : Bool) : Nat := if b then 1 else 0
+def wireSeq (w : Wire) : List Nat :=
+  [w.totalKeys, w.height] ++ w.labels ++
+  w.hasChild.bits.map boolNat ++ [w.hasChild.blockSize] ++ w.hasChild.lut ++
+  w.louds.bits.map boolNat ++ [w.louds.numOnes] ++ w.louds.lut ++
+  w.pfx.has.bits.map boolNat ++ [w.pfx.has.blockSize] ++ w.pfx.has.lut ++ w.pfx.offsets ++ w.pfx.data ++
+  w.sfx.has.bits.map boolNat ++ [w.sfx.has.blockSize] ++ w.sfx.has.lut ++ w.sfx.offsets ++ w.sfx.data ++
+  w.values
+def digest (xs : List Nat) : Nat := xs.foldl (fun h x => (h * 31 + x + 1) % 1000000007) 7
+def showWire (w : Wire) : String :=
+  s!"keys={w.totalKeys} height={w.height} labels={w.labels.length} " ++
+  s!"hc={w.hasChild.bits.length}/{w.hasChild.blockSize}/{w.hasChild.lut.length} " ++
+  s!"louds={w.louds.bits.length}/{w.louds.numOnes}/{w.louds.lut.length} " ++
+  s!"pfx={w.pfx.has.bits.length}/{w.pfx.has.blockSize}/{w.pfx.has.lut.length}/{w.pfx.offsets.length}/{w.pfx.data.length} " ++
+  s!"sfx={w.sfx.has.bits.length}/{w.sfx.has.blockSize}/{w.sfx.has.lut.length}/{w.sfx.offsets.length}/{w.sfx.data.length} " ++
+  s!"values={w.values.length} digest={digest (wireSeq w)}"
+
 /-- the `trie` that `trie.Init(builder)` makes of the encoded vectors -/
 def toWire (f : Flat) : Wire :=
   { totalKeys := f.values.length
